@@ -19,7 +19,12 @@ def run(tier, seed, replay=None):
     asis = vlib.tlc("AdsLocal", "AdsLocal_asis.cfg", wd, workers=4, timeout=600)
     if not asis.violated:
         raise vlib.Inconclusive("the no-tombstone variant of AdsLocal.tla is expected to violate the properties (documented counter-example)")
-    wit = vlib.witnesses("AdsLocal", "AdsLocal_quick.cfg", ["W_NoWithdrawnNewer", "W_NoCancelUnknown", "W_NoReadvertise"], wd, workers=4)
+    # mesh-level design model (triangle, goroutine-per-message flooding as unordered bags)
+    rm = vlib.tlc_must_pass("ServiceAds", "ServiceAds_quick.cfg" if tier == "quick" else "ServiceAds_full.cfg", wd, workers=8, timeout=2400)
+    masis = vlib.tlc("ServiceAds", "ServiceAds_asis.cfg", wd, workers=4, timeout=600)
+    if not masis.violated:
+        raise vlib.Inconclusive("the no-tombstone variant of ServiceAds.tla is expected to violate NoResurrection")
+    wit = vlib.witnesses("ServiceAds", "ServiceAds_quick.cfg", ["W_NotQuietAfterClose"], wd, workers=4) + vlib.witnesses("AdsLocal", "AdsLocal_quick.cfg", ["W_NoWithdrawnNewer", "W_NoCancelUnknown", "W_NoReadvertise"], wd, workers=4)
     segs, steps = (60, 14) if tier == "quick" else (500, 20)
     out = tracecheck.run(wd, ["adslocal", "-segments", str(segs), "-steps", str(steps), "-seed", str(seed)],
                          "AdsLocalTrace", "AdsLocalTrace.cfg", "ads")
@@ -46,7 +51,7 @@ def run(tier, seed, replay=None):
     if missing:
         raise vlib.Inconclusive("step classes never exercised: %s" % missing)
     cov = {
-        "states": r.distinct, "transitions": r.generated, "traces_validated_against_impl": out["segments"] + mo["steps"],
+        "states": r.distinct + rm.distinct, "transitions": r.generated + rm.generated, "traces_validated_against_impl": out["segments"] + mo["steps"],
         "evaluations": out["steps"], "distinct_nontrivial": out["harness"]["distinct"],
         "rule": "seeded sequences of advertisements/withdrawals (owners o1,o2 and the node itself; 3 services; 6 time stamps plus "
                 "times around 'now'; exact duplicates on either link) and local open/close of advertised listeners on a real node "
@@ -57,6 +62,7 @@ def run(tier, seed, replay=None):
         "mesh_scenarios": mo["steps"], "mesh_distinct": mo["harness"]["distinct"],
         "asis_counterexample": asis.violated,
         "tlc_design": {"spec": "AdsLocal.tla", "generated": r.generated, "distinct": r.distinct},
+        "tlc_mesh_design": {"spec": "ServiceAds.tla", "generated": rm.generated, "distinct": rm.distinct, "asis_counterexample": masis.violated},
     }
     return v.finish("model_checking", cov, assumptions=[
         "advertisement times of one owner are distinct (the owner's clock is strictly increasing)",
